@@ -42,6 +42,9 @@ pub enum Bad {
     BddMismatch(usize),
     /// bdd_complexity of a list of `len` tables where the one at `pos` (>= 1) has another size
     BddMismatchAt(usize, usize, usize),
+    /// the same, the odd table (of `n2` variables) being 1 = constant zero, 2 = a table with the
+    /// receiver's own blocks where they are well formed for n2 (else constant zero), 3 = Lut::default()
+    BddMismatchKind(usize, usize, usize, u8),
 }
 
 #[derive(Clone, Debug, Hash, Serialize, Deserialize)]
@@ -129,6 +132,22 @@ fn run_bad(c: &BadCase) -> Verdict {
         Bad::BinMismatch(op, form, n2) => describe(Some((x.bin_form(*op, *form, other(*n2).as_ref()).as_ref(), None))),
         Bad::FromCofactorsMismatch(n2) => describe(Some((x.from_cofactors(other(*n2).as_ref(), 0).as_ref(), None))),
         Bad::BddMismatch(n2) => format!("{}", x.bdd_complexity_with(&[other(*n2).as_ref()])),
+        Bad::BddMismatchKind(n2, pos, len, kind) => {
+            let d = Fam::Dyn.get();
+            let xb = x.blocks();
+            let fits = xb.len() == words_for(*n2) && (*n2 >= 6 || xb[0] >> (1u32 << *n2) == 0);
+            let o: T = match kind {
+                3 => d.default_(0),
+                2 if fits => d.from_blocks(*n2, &xb),
+                _ => d.zero(*n2),
+            };
+            if o.n() == n {
+                // (Lut::default() has 0 variables: not a mismatch for n = 0)
+                return "skipped".to_string();
+            }
+            let others: Vec<&dyn Tab> = (1..*len).map(|k| if k == *pos { o.as_ref() } else { x.as_ref() }).collect();
+            format!("{}", x.bdd_complexity_with(&others))
+        }
         Bad::BddMismatchAt(n2, pos, len) => {
             let o = other(*n2);
             let others: Vec<&dyn Tab> = (1..*len).map(|k| if k == *pos { o.as_ref() } else { x.as_ref() }).collect();
@@ -147,6 +166,7 @@ fn run_bad(c: &BadCase) -> Verdict {
             };
             pass(small, vec![format!("fam:{}", c.fam.label()), format!("n:{}", n), format!("call:{}", name)])
         }
+        Ok(what) if what == "skipped" => pass(false, vec!["skipped:not-a-mismatch".into()]),
         Ok(what) => fail(
             format!("no-panic:{}", name),
             format!("{} (n={}) receiver {}: {:?} with an out-of-range / mismatched argument returned {} instead of panicking", c.fam.label(), n, c.t.short(), c.call, what),
@@ -227,6 +247,12 @@ fn enumerate_bad(_t: Tier, shard: usize, nshards: usize, f: &mut dyn FnMut(BadCa
                         for len in 3..=6usize {
                             for pos in 1..len {
                                 calls.push(Bad::BddMismatchAt(n2, pos, len));
+                            }
+                        }
+                        // the odd table repeats the blocks of an earlier member (zero / same blocks / default)
+                        for kind in 1..=3u8 {
+                            for (pos, len) in [(1usize, 2usize), (1, 3), (2, 3), (3, 5)] {
+                                calls.push(Bad::BddMismatchKind(n2, pos, len, kind));
                             }
                         }
                     }
@@ -427,7 +453,7 @@ fn run_valid(c: &ValidCase) -> Verdict {
 pub fn def() -> PropDef {
     PropDef {
         id: "C17",
-        rule: "invalid: cases = (family, receiver table, call with an out-of-range or mismatched argument), n in 0..=8, run in BOTH build profiles (release; release + debug-assertions + overflow-checks): nth_var, value/get_bit/set_bit/unset_bit/set_value (assignment in 2^n..=2^n+70 and 2^20, usize::MAX/2, MAX-1, MAX), flip(_inplace), swap(_inplace) with either or both indices bad and in both argument orders, swap_adjacent(_inplace) (n-1 included), cofactors, from_cofactors, top_decomposition, is_pos_unate, is_neg_unate (index in n..=n+70 and 255, 256, 2^20, usize::MAX/2, MAX-1, MAX), from_blocks with every slice length 0..=6 other than the right one, and for Lut every form of and/or/xor, from_cofactors and bdd_complexity with operands of different n (for bdd_complexity the odd table at every position of lists of 2..=6 tables); three receivers per size (constant one, a dense table, zero) — this part is a complete enumeration in both tiers — plus generated receivers and arbitrary out-of-range values. Under catch_unwind the call must panic; `returned` is the violation and what was returned is reported. Non-trivial = index/assignment within 64 of the valid range (where release kernels would compute silently). valid: cases = (family, history of 1..16 (quick) / 1..40 (thorough) in-range API calls over a pool of 4 generated tables, n in 0..=8, the whole common API as in C10 incl. equals/threshold with k up to usize::MAX and the hooked successor); the history is executed in this build and, through a long-lived child process (`vcheck serve`), in the other build profile; every step's outcome (blocks, certificates, strings, counts, orderings, Ok/Err) must be identical and neither side may panic. Non-trivial = the history reaches a kernel with debug assertions or arithmetic on user-supplied sizes.",
+        rule: "invalid: cases = (family, receiver table, call with an out-of-range or mismatched argument), n in 0..=8, run in BOTH build profiles (release; release + debug-assertions + overflow-checks): nth_var, value/get_bit/set_bit/unset_bit/set_value (assignment in 2^n..=2^n+70 and 2^20, usize::MAX/2, MAX-1, MAX), flip(_inplace), swap(_inplace) with either or both indices bad and in both argument orders, swap_adjacent(_inplace) (n-1 included), cofactors, from_cofactors, top_decomposition, is_pos_unate, is_neg_unate (index in n..=n+70 and 255, 256, 2^20, usize::MAX/2, MAX-1, MAX), from_blocks with every slice length 0..=6 other than the right one, and for Lut every form of and/or/xor, from_cofactors and bdd_complexity with operands of different n (for bdd_complexity the odd table at every position of lists of 2..=6 tables, the odd table being constant one, constant zero, a table with the very blocks of the other members, or Lut::default()); three receivers per size (constant one, a dense table, zero) — this part is a complete enumeration in both tiers — plus generated receivers and arbitrary out-of-range values. Under catch_unwind the call must panic; `returned` is the violation and what was returned is reported. Non-trivial = index/assignment within 64 of the valid range (where release kernels would compute silently). valid: cases = (family, history of 1..16 (quick) / 1..40 (thorough) in-range API calls over a pool of 4 generated tables, n in 0..=8, the whole common API as in C10 incl. equals/threshold with k up to usize::MAX and the hooked successor); the history is executed in this build and, through a long-lived child process (`vcheck serve`), in the other build profile; every step's outcome (blocks, certificates, strings, counts, orderings, Ok/Err) must be identical and neither side may panic. Non-trivial = the history reaches a kernel with debug assertions or arithmetic on user-supplied sizes.",
         assumptions: vec![
             "a panic is recognised through catch_unwind (panic = unwind in both harness profiles)",
             "a dead / unreachable other-profile process is reported as inconclusive (exit 2), never as a violation",
